@@ -78,6 +78,7 @@ class Controller:
         self.expired = []
         self.zombie_threads = []
         self.active = False
+        self.extra = False
 
     def role(self):
         t = threading.current_thread()
@@ -91,7 +92,7 @@ class Controller:
         return r
 
     def event(self, fn, ev):
-        if not self.active:
+        if not self.active or (fn in EXTRA_NAMES and not self.extra):
             return
         role = self.role()
         key = (role, fn, ev)
@@ -127,6 +128,8 @@ class Controller:
 
 
 _CTL = [None]
+EXTRA_NAMES = set()
+_WARMED_UP = []
 _INSTALLED = [False]
 _HAS_ABANDON = [False]
 _CONTAMINATED = [False]
@@ -156,6 +159,24 @@ def install_monitoring():
             code = getattr(cls, fn).__code__
             names[code] = fn
             mon.set_local_events(TOOL, code, mon.events.PY_START | mon.events.PY_RETURN)
+
+    # the steps with which the student's thread prepares an execution (only looked at by the 'preparing' cases)
+    import pedal.sandbox.sandbox as _sandbox_module
+    import pedal.sandbox.tracer as _tracer_module
+    extra = [(Sandbox, '_start_patches', '_start_patches'), (getattr(_sandbox_module, '_RecursionLimitGuard', None), 'start', 'limit_guard_start'),
+             (_tracer_module.SandboxNativeTracer, '__enter__', 'native_trace_enter'), (_tracer_module.SandboxCallTracer, '__enter__', 'calls_trace_enter')]
+    try:
+        import coverage.collector as _collector
+        extra.append((_collector.Collector, 'start', 'coverage_measurement_start'))
+    except Exception:
+        pass
+    for cls, fn, label in extra:
+        if cls is None or not hasattr(cls, fn):
+            continue
+        code = getattr(cls, fn).__code__
+        names[code] = label
+        EXTRA_NAMES.add(label)
+        mon.set_local_events(TOOL, code, mon.events.PY_START | mon.events.PY_RETURN)
 
     import types as _types
     for const in Sandbox._execute_with_timeout.__code__.co_consts:
@@ -659,6 +680,195 @@ def run_deadline_case(ctx, case):
         ctx.sample({'case': cs, 'event_order': order, 'at_return': at_return, 'at_quiescence': at_quiescence, 'next': got_next[:1]})
 
 
+# ----------------------------------------------------------------------------------------------------------
+# the time runs out while the student's thread is still PREPARING the execution (a starved thread, a very short limit)
+# ----------------------------------------------------------------------------------------------------------
+PREPARING = {
+    # where the student's thread is when the grader gives up: (function, event, tracer it applies to)
+    'before-it-began': ('_execute', 'start', None),
+    'starting-to-mock': ('_start_mocking', 'start', None),
+    'starting-the-patches': ('_start_patches', 'start', None),
+    'starting-the-limit-guard': ('limit_guard_start', 'start', None),
+    'starting-the-line-trace': ('native_trace_enter', 'start', 'native'),
+    'starting-the-call-trace': ('calls_trace_enter', 'start', 'calls'),
+    'starting-the-coverage-measurement': ('coverage_measurement_start', 'return', 'coverage'),
+}
+
+
+def measurements_left_running():
+    """coverage.py keeps the measurements that were started and not ended on a stack of its own (the older one is resumed, in
+    whichever thread ends the newer one): asked only when no student thread is alive any more"""
+    collector = sys.modules.get('coverage.collector')
+    return len(collector.Collector._collectors) if collector is not None else 0
+
+
+def run_preparing_case(ctx, case):
+    """The limit expires before the student's code has begun: the student's thread is held at one of the steps with which it
+    prepares the execution until the grader has given up on it and interrupted it, so the interrupt lands right there. The call
+    returns, reports exactly one timeout, leaves nothing patched or measuring, and later executions are unaffected."""
+    from props import sbx_common as sc
+    from pedal.sandbox import commands as sbx
+    install_monitoring()
+    settle(ctx)
+    where, entry, allowed, nexts = case['where'], case['entry'], case['allowed_time'], case['next']
+    fn, ev, tracer = PREPARING[where]
+    tracer = tracer or case.get('tracer', 'none')
+    if fn not in EXTRA_NAMES and fn not in ('_execute', '_start_mocking'):
+        ctx.count('preparing_step_not_present_in_this_tree')
+        return
+    files = student_files('busy-loop', entry)
+    want_next = fresh_reference(files, nexts)
+    measuring_before = measurements_left_running()
+    try:
+        sandbox, report = sc.new_sandbox(files, tracer)
+    except ImportError:
+        ctx.count('tracer_unavailable')
+        return
+    sandbox.allowed_time = allowed
+    if tracer == 'coverage':
+        # (the first measurement in a process takes much longer than the others to set up: not during the timed one)
+        if not _WARMED_UP:
+            import coverage
+            warm = coverage.Coverage()
+            warm.start()
+            warm.stop()
+            _WARMED_UP.append(True)
+    if entry != 'run':
+        sandbox.allowed_time = 20
+        sbx.run(code=files['answer.py'].split('def slow')[0] + 'def slow():\n    while True:\n        pass\n', threaded=False)
+        sandbox.allowed_time = allowed
+    n_rt_before = len(runtime_feedbacks(report))
+    real_out = io.StringIO()
+    saved_stdout = sys.stdout
+    sys.stdout = real_out
+    snap = sc.Snapshot(sandbox)
+    ctl = Controller()
+    ctl.extra = True
+    ctl.holds.append(('Z1', fn, ev, 1, 'grader-gave-up', 1))
+
+    def gave_up_watcher():
+        # the grader has interrupted the thread - or (a tree in which the grader first waits for the thread to be done with the
+        # step it is in) has been about to for a while
+        end = time.time() + GATE_TIMEOUT
+        about_to = None
+        while time.time() < end and ctl.active:
+            if ctl.seen(('G', '_async_raise', 'return')) or ctl.seen(('G', '_async_raise', 'unwind')):
+                ctl.flag('grader-gave-up')
+                return
+            if about_to is None and (ctl.seen(('G', 'abandon_execution', 'start')) or ctl.seen(('G', 'terminate', 'start'))):
+                about_to = time.time()
+            if about_to is not None and time.time() - about_to > 0.5:
+                ctl.flag('grader-gave-up')
+                return
+            time.sleep(0.002)
+    _CTL[0] = ctl
+    ctl.active = True
+    threading.Thread(target=gave_up_watcher, daemon=True, name='verif-gave-up-watcher').start()
+    raised = None
+    returned = threading.Event()
+    main_ident = threading.main_thread().ident
+    t0 = time.time()
+
+    def hang_watchdog():
+        if returned.wait(allowed + 25):
+            return
+        frame = sys._current_frames().get(main_ident)
+        stack = traceback.extract_stack(frame) if frame is not None else []
+        at = ' > '.join('%s:%s:%d' % (f.filename.split('/')[-1], f.name, f.lineno) for f in stack[-6:])
+        ctx.inconclusive('watchdog: preparing case still running, grader at %s (%s)' % (at, preparing_label(case)))
+        ctx.emergency_dump_and_exit()
+    threading.Thread(target=hang_watchdog, daemon=True, name='verif-watchdog').start()
+    try:
+        try:
+            if entry == 'run':
+                sbx.run(threaded=True)
+            elif entry == 'call':
+                sbx.call('slow', threaded=True)
+            else:
+                sbx.evaluate('slow()', threaded=True)
+        except BaseException as e:
+            raised = e
+        returned.set()
+        at_return = observe(sandbox, report, snap, n_rt_before, sbx)
+        deadline = time.time() + GATE_TIMEOUT + 4
+        while time.time() < deadline and any(t.is_alive() for t in ctl.zombie_threads):
+            time.sleep(0.01)
+        quiesced = not any(t.is_alive() for t in ctl.zombie_threads)
+        at_quiescence = observe(sandbox, report, snap, n_rt_before, sbx)
+        measuring = measurements_left_running() if quiesced else measuring_before
+        got_next = []
+        if raised is None and not at_quiescence['diffs']:
+            got_next = [do_next(sbx, k) for k in nexts]
+        after_all = observe(sandbox, report, snap, n_rt_before, sbx, count_feedback=False)
+    finally:
+        ctl.active = False
+        with ctl.cv:
+            ctl.cv.notify_all()
+        _CTL[0] = None
+        # keep whatever was left behind out of the following cases
+        snap.restore()
+        sandbox._current_patches.clear()
+        sandbox._current_stdout.clear()
+        sys.stdout = saved_stdout
+    ctx.count('limits_expiring_during_preparation_driven')
+    order = order_signature(ctl.log)
+    ctx.seen('cross_thread_event_orders', order)
+    label = preparing_label(case)
+    if ctl.expired:
+        ctx.undecided('gate expired: %s (%s)' % (ctl.expired[0], label))
+        return
+    if not quiesced:
+        ctx.undecided('student thread did not end (%s)' % label)
+        return
+    # (the thread that is let go with the interrupt pending leaves the gate by that exception: what shows that it was held
+    # there is that the grader gave up on it after it arrived and before it got any further)
+    zs = idx(ctl.log, 'Z1:%s:%s' % (fn, ev))
+    gd = idx(ctl.log, 'G:abandon_execution:start') if _HAS_ABANDON[0] else idx(ctl.log, 'G:terminate:start')
+    z_next = next((i for i, e in enumerate(ctl.log) if zs is not None and i > zs and e.startswith('Z1:')), None)
+    if zs is None or gd is None or not zs < gd or (z_next is not None and z_next < gd):
+        ctx.undecided('the student thread was not at that step when the time ran out (%s): %s' % (label, ctl.log if __import__('os').environ.get('VERIF_DEBUG') else order))
+        return
+    ctx.count('forced_orders_confirmed')
+    ctx.count('timeouts_observed')
+    ctx.seen('interleavings', 'limit-expires-while-preparing/' + where)
+    ctx.seen('tracers', tracer)
+    ctx.case(label)
+    cs = public(case)
+    tail = 'limit-expires-while-preparing/%s' % where
+    if raised is not None:
+        ctx.violation('C14|call-raised|%s|%s|%s' % (type(raised).__name__, entry, tail), cs,
+                      {'raised': traceback.format_exception_only(type(raised), raised)[-1][:300], 'events': order})
+        return
+    for when, ob in (('at-return', at_return), ('at-quiescence', at_quiescence)):
+        if ob['exception'] != 'TimeoutError':
+            ctx.violation('C14|exception-not-timeout|%s|%s|%s' % (when, tail, ob['exception']), cs, 'get_exception() is %s %s' % (ob['exception'], when))
+        if ob['new_runtime'] != 1:
+            ctx.violation('C14|runtime-feedback-count-%d|%s|%s' % (ob['new_runtime'], when, tail), cs, 'new runtime feedbacks %s: %s' % (when, ob['runtime_titles']))
+        elif ob['runtime_names'] != ['TimeoutError']:
+            ctx.violation('C14|runtime-feedback-not-timeout|%s|%s' % (when, tail), cs, ob['runtime_names'])
+    for when, ob in (('at-return', at_return), ('at-quiescence', at_quiescence), ('after-next-executions', after_all)):
+        for what, detail in ob['diffs']:
+            ctx.violation('C14|patch-state|%s|%s|%s' % (what, when, tail), cs, {'what': what, 'detail': detail, 'events': order})
+    if measuring != measuring_before:
+        ctx.violation('C14|patch-state|coverage-measurement-left-running|at-quiescence|%s' % tail, cs,
+                      {'measurements on coverage.py\'s stack before': measuring_before, 'after the student thread ended': measuring, 'events': order})
+    for i, (want, got) in enumerate(zip(want_next, got_next)):
+        if want != got:
+            field = next(k for k in want if want[k] != got[k])
+            ctx.violation('C14|next-execution-altered|%s|%s|program=busy-loop' % (field, tail), cs,
+                          {'next': nexts[i], 'fresh sandbox': want, 'this sandbox': got, 'events': order})
+            break
+    leaked = real_out.getvalue()
+    if leaked:
+        ctx.violation('C14|wrote-to-real-stdout|%s' % tail, cs, leaked[:200])
+    if ctx.evaluations % 5 == 0:
+        ctx.sample({'case': cs, 'event_order': order, 'at_return': at_return, 'at_quiescence': at_quiescence, 'next': got_next[:1]})
+
+
+def preparing_label(case):
+    return 'preparing/%s/%s/%s/%.2f/%s' % (case['where'], case['entry'], case.get('tracer', 'none'), case['allowed_time'], ','.join(case['next']))
+
+
 def deadline_label(case):
     return 'deadline/%s/%s/%s/%.2f/%s' % (case.get('variant', 'inside-its-own-finish'), case['program'], case['entry'], case['allowed_time'], ','.join(case['next']))
 
@@ -812,10 +1022,27 @@ def run(ctx):
             case['allowed_time'] = rng.choice([0.05, 0.1, 0.2])
             case['next'] = rng.sample([k for k in NEXT_KINDS], 2)
             run_deadline_case(ctx, case)
+    for rep in range(ctx.pick(1, 4)):
+        for c in preparing_cases()[ctx.shard::ctx.nshards]:
+            if ctx.time_left() < 12:
+                break
+            case = dict(c)
+            # (starting a measurement of coverage takes a while: the thread is to be there when the time runs out)
+            case['allowed_time'] = rng.choice([0.05, 0.1, 0.2]) if PREPARING[c['where']][2] != 'coverage' else 0.4
+            # (a program that never began has not defined its functions either)
+            case['next'] = rng.sample([k for k in NEXT_KINDS if c['entry'] != 'run' or k.startswith('run-')], 2)
+            case['tracer'] = PREPARING[c['where']][2] or rng.choice(['none', 'none', 'native', 'calls', 'coverage'])
+            run_preparing_case(ctx, case)
+
+
+def preparing_cases():
+    return [{'kind': 'preparing', 'where': w, 'entry': e} for w in PREPARING for e in ('run', 'call', 'evaluate')]
 
 
 def replay(ctx, case):
-    if case.get('kind') == 'deadline':
+    if case.get('kind') == 'preparing':
+        run_preparing_case(ctx, case)
+    elif case.get('kind') == 'deadline':
         run_deadline_case(ctx, case)
     else:
         run_case(ctx, case)
